@@ -104,6 +104,36 @@ theorem block_height_vs_qc_height_disjoint (h h' : UInt64) : indexer.blockHeight
 example : (IdxKey.txSender (List.replicate 20 1) (indexer.txHeightAndIndexKey 3 4)).WF := by
   simp [IdxKey.WF, indexer.txHeightAndIndexKey, indexer.txHeightPrefix, joinLenPrefix, formatUint64]
 
+
+/-! ### Absent components
+
+`JoinLenPrefix` drops a nil segment without leaving a marker, so the builders above are injective on PRESENT
+components only. What the real function writes for an absent recipient is `joinLenPrefix [[4], hik]`, which is
+byte for byte the iteration prefix of the 20-byte address `hik` — the guards that keep the indexer from ever
+building that key are pinned here, and `harness/c19/idxuse.go` queries the real indexer at exactly those addresses. -/
+
+/-- why the guard is needed: the key of (no recipient, height-and-index key `hik`) is a prefix of every
+recipient key of the address `hik` -/
+theorem absent_recipient_aliases_address (hik k : Bytes) :
+    joinLenPrefix [[4], hik] <+: (IdxKey.txRecipient hik k).encode := by
+  rw [IdxKey.encode_eq]
+  refine ⟨joinLenPrefix [k], ?_⟩
+  simp [IdxKey.segs, joinLenPrefix]
+
+/-- `Indexer.indexTxByRecipient` writes a recipient key only for a present recipient -/
+theorem recipient_index_written_only_when_present : Gen.src_store_indexTxByRecipient = [
+  "if recipient == nil {",
+  "  return nil",
+  "}",
+  "return t.db.Set(t.txRecipientKey(recipient, heightAndIndexKey), bz)"
+] := rfl
+
+/-- `Indexer.DeleteTxsForHeight` builds the recipient key only under the `recipient != nil` guard -/
+theorem recipient_index_deleted_only_when_present : Gen.src_store_DeleteTxsForHeight_recipient = [
+  "    if recipient := tx.GetRecipient(); recipient != nil {",
+  "      if e = t.db.Delete(t.txRecipientKey(recipient, heightAndIndexKey)); e != nil {"
+] := rfl
+
 end Canopy.C19Idx
 
 /-!
